@@ -726,6 +726,8 @@ class BT:
             return self.call(e[1], e[2], "this", env, out, ind)
         if k == "mcall":
             t, ty = self.ev(e[1], env, out, ind)
+            if ty == "obj" and e[2] == "." and e[3] == "detach" and len(e[4]) == 2:
+                return self.call(e[3], e[4], t, env, out, ind)
             if ty != "objptr" or e[2] != "->" or t != "this":
                 self.refuse(f"member call `{e[3]}` on something that is not `this`")
             return self.call(e[3], e[4], t, env, out, ind)
@@ -864,7 +866,7 @@ class BT:
     PRIMS = {("detach", 2), ("Memory::copy", 3), ("Memory::compare", 3), ("Atomic::increment", 1), ("Atomic::decrement", 1), ("vsnprintf", 4)}
 
     def helper_call(self, e):
-        return e is not None and e[0] == "call" and (e[1], len(e[2])) not in self.PRIMS and "::" not in e[1]
+        return e is not None and e[0] == "call" and (e[1], len(e[2])) not in self.PRIMS and "::" not in e[1] and e[1] != "String"
 
     def rename(self, x, names, suf):
         if isinstance(x, tuple):
@@ -1032,13 +1034,14 @@ class BT:
                 self.refuse(f"`{name}` declared twice")
             out = []
             t, ty = self.ev(e, env, out, ind)
-            if ty != "obj":
-                self.refuse("`String x(…)` with something else than a String")
-            if "ctorCopy" not in self.known:
-                self.refuse("local String before the copy constructor is translated")
+            if ty not in ("obj", "nat"):
+                self.refuse("`String x(…)` with something else than a String or a capacity")
+            ctor = "ctorCopy" if ty == "obj" else "ctorCap"
+            if ctor not in self.known:
+                self.refuse("local String before its constructor is translated")
             self.tmps = max(self.tmps, len(objs) + 1)
             slot = f"tmp{len(objs) + 1}"
-            out.append(f"{ind}let s ← ctorCopy s {slot} {t}")
+            out.append(f"{ind}let s ← {ctor} s {slot} {t}")
             env2 = dict(env)
             env2[name] = (slot, "obj")
             return out + self.run(rest, env2, ind, objs + [slot], ret)
@@ -1061,6 +1064,13 @@ class BT:
                              lambda env2, ind2: self.run([s[3]] + rest, env2, ind2, objs, ret))
         if k == "return":
             e = s[1]
+            if ret == "factory":
+                # the returned String is built in the first temporary slot (no copy: the local IS the return value)
+                if e is not None and e[0] == "id" and e[1] in env and env[e[1]] == ("tmp1", "obj") and objs == ["tmp1"]:
+                    return [f"{ind}pure s"]
+                if e == ("call", "String", []) and objs == ["tmp1"]:
+                    return [f"{ind}let s ← dtor s tmp1", f"{ind}let s := endLife s tmp1", f"{ind}pure s"]
+                self.refuse("this return value")
             if ret == "ptr":
                 if e == ("num", 0):
                     return [f"{ind}pure none"]
@@ -1134,6 +1144,7 @@ BODY_FUNCS = [
     ("dtor", r"~\s*String\s*\(\s*\)", [], "void", "~String()"),
     ("detach", r"void\s+detach\s*\(\s*usize\s+(\w+)\s*,\s*usize\s+(\w+)\s*\)", ["nat", "nat"], "void", "detach(usize, usize)"),
     ("ctorCopy", r"(?<![~\w])String\s*\(\s*" + P_STR + r"\s*\)", ["obj"], "ctor", "String(const String&)"),
+    ("ctorCap", r"explicit\s+String\s*\(\s*usize\s+(\w+)\s*\)", ["nat"], "ctor", "explicit String(usize)"),
     ("assign", r"String\s*&\s*operator\s*=\s*\(\s*" + P_STR + r"\s*\)", ["obj"], "self", "operator=(const String&)"),
     ("cviewConst", r"operator\s+const\s+char\s*\*\s*\(\s*\)\s*const", [], "cstr", "operator const char*() const"),
     ("cview", r"operator\s+const\s+char\s*\*\s*\(\s*\)(?!\s*const)", [], "cstr", "operator const char*()"),
@@ -1156,6 +1167,7 @@ BODY_FUNCS = [
     ("prependP", r"String\s*&\s*prepend\s*\(\s*const\s+char\s*\*\s*(\w+)\s*,\s*usize\s+(\w+)\s*\)", ["cptr", "nat"], "self", "prepend(const char*, usize)"),
 ]
 CPP_FUNCS = [
+    ("fromPrintf", r"String\s+String::fromPrintf\s*\(\s*const\s+char\s*\*\s*(\w+)\s*,\s*\.\.\.\s*\)", ["fmt"], "factory", "String::fromPrintf(const char*, ...)"),
     ("printf", r"int\s+String::printf\s*\(\s*const\s+char\s*\*\s*(\w+)\s*,\s*\.\.\.\s*\)", ["fmt"], "int", "String::printf(const char*, ...)"),
 ]
 LEAN_TY = {"nat": "Nat", "obj": "Nat", "cptr": "CPtr", "fmt": "List Nat"}
